@@ -173,11 +173,89 @@ def run(ctx):
     # small-scope families: scope handed on before / after an assignment in every scope kind; include lists whose
     # later candidate is already loaded
     run_sets(ctx, jinja2, G.directed_sets())
+    reentrancy_stream(ctx, jinja2)
+    shared_globals_probe(ctx, jinja2)
     # the repaired finding C05-import-globals-from-parent, minimal form, as a regression case
     ts = {"templates": {"main": {"globals": {"mg": "MG"}, "body": [("I", ("n", "t1"), "m1", None), ("a", "m1", "a")]},
                         "t1": {"globals": {}, "body": [("s", "a", ("v", "mg"))]}},
           "main": "main", "data": {"mg": "DMG"}, "env_globals": {"g": "G"}, "objects": []}
     run_sets(ctx, jinja2, [ts])
+
+
+def shared_globals_probe(ctx, jinja2):
+    """IDENTITY: ONE dict handed as globals= to two templates; a later cache hit that updates the globals of the first must
+    neither become visible in the second (directly, in its default module, in what it imports) nor modify the caller's dict"""
+    srcs = {"a": "a:{{ k|default('-') }}", "b": "b:{{ k|default('-') }}|{% import 'lib' as l %}{{ l.v }}|{% include 'a2' without context %}",
+            "lib": "{% set v = k|default('-') %}", "a2": "{{ k|default('-') }}"}
+    for how in ("get_template", "from_string"):
+        env = jinja2.Environment(loader=jinja2.DictLoader(srcs))
+        G = {"z": 1}
+        try:
+            ta = env.get_template("a", globals=G)
+            tb = env.get_template("b", globals=G) if how == "get_template" else env.from_string(srcs["b"], globals=G)
+            env.get_template("a", globals={"k": "LEAK"})
+            got = (ta.render(), tb.render(), dict(G))
+        except Exception as e:  # noqa
+            got = ("X:" + type(e).__name__,)
+        want = ("a:LEAK", "b:-|-|-", {"z": 1})
+        ctx.case()
+        ctx.count("probe-shared-globals-dict")
+        if got != want:
+            ctx.reject({"shared_globals": how, "sources": srcs, "got": [str(x) for x in got]},
+                       f"one globals dict shared by two templates ({how}): after updating the first template's globals the "
+                       f"engine gives {got!r}, expected {want!r}", "C05:globals-dict-aliased-between-templates")
+        else:
+            ctx.validated()
+
+
+def reentrancy_stream(ctx, jinja2):
+    """REENTRANCY: a template whose default module is being built includes / imports itself (or a partner that includes
+    it back) without context; the recursion is ended by a global counter callable, which is outside the Coq model's value
+    universe - so the expected text comes from a direct reference (each include / import without context renders the
+    target afresh with only globals: level n contains level n+1)"""
+    def ref_include(n, limit):
+        return "[%d%s%d]" % (n, ref_include(n + 1, limit) if n < limit else "", n)
+
+    def ref_import(n, limit):
+        return ("%d" % (n + 1) if n < limit else "") + "<%d>" % n
+
+    for limit in (1, 2, 3, 4, 6):
+        shapes = {
+            "self-include": ({"a": "[{% set n = tick() %}{{ n }}{% if n < limit %}{% include 'a' without context %}{% endif %}{{ n }}]"},
+                             ref_include(1, limit)),
+            "mutual-include": ({"a": "[{% set n = tick() %}{{ n }}{% if n < limit %}{% include 'b' without context %}{% endif %}{{ n }}]",
+                                "b": "[{% set n = tick() %}{{ n }}{% if n < limit %}{% include ['nope', 'a'] without context %}{% endif %}{{ n }}]"},
+                               ref_include(1, limit)),
+            "self-import": ({"a": "{% set n = tick() %}{% if n < limit %}{% import 'a' as m %}{{ m.n }}{% endif %}<{{ n }}>"},
+                            ref_import(1, limit)),
+            "self-from-import": ({"a": "{% set n = tick() %}{% if n < limit %}{% from 'a' import n as k %}{{ k }}{% endif %}<{{ n }}>"},
+                                 ref_import(1, limit)),
+            "mutual-import": ({"a": "{% set n = tick() %}{% if n < limit %}{% import 'b' as m %}{{ m.n }}{% endif %}<{{ n }}>",
+                               "b": "{% set n = tick() %}{% if n < limit %}{% import 'a' as m %}{{ m.n }}{% endif %}<{{ n }}>"},
+                              ref_import(1, limit)),
+        }
+        for shape, (srcs, want) in shapes.items():
+            for kind in ("plain", "async"):
+                env = jinja2.Environment(loader=jinja2.DictLoader(srcs), enable_async=kind == "async")
+                counter = [0]
+
+                def tick():
+                    counter[0] += 1
+                    return counter[0]
+                env.globals.update(tick=tick, limit=limit)
+                try:
+                    got = env.get_template("a").render()
+                except Exception as e:  # noqa
+                    got = "X:" + type(e).__name__ + ":" + str(e)[:60]
+                ctx.case(sample={"sources": srcs, "limit": limit, "render": got} if limit == 3 and kind == "plain" else None,
+                         key=("reentrant", shape, limit, kind) if limit > 1 else None)
+                ctx.count("reentrant:" + shape)
+                if got != want:
+                    ctx.reject({"reentrant": shape, "sources": srcs, "limit": limit, "env": kind},
+                               f"reentrant {shape} (limit {limit}, {kind}): the engine gives {got!r}, each level rendered "
+                               f"afresh gives {want!r}", None)
+                else:
+                    ctx.validated()
 
 
 def replay(ctx, data):
@@ -186,6 +264,14 @@ def replay(ctx, data):
     if data.get("kind") != "failing-input" or case is None:
         print("replay: this file names a broken theorem/correspondence, not an input:", data.get("broken"))
         return run(ctx)
+    if "shared_globals" in case:
+        print("replay: re-running the shared globals dict probe")
+        shared_globals_probe(ctx, jinja2)
+        return
+    if "reentrant" in case:
+        print("replay: reentrancy cases are re-run as a family")
+        reentrancy_stream(ctx, jinja2)
+        return
     ts = {"templates": {n: {"globals": case["template_globals"].get(n, {}), "body": []} for n in case["sources"]},
           "main": case["main"], "data": case["data"], "env_globals": case["env_globals"], "objects": case["objects"],
           "lists": {k: [tuple(t) for t in v] for k, v in case.get("lists", {}).items()},
